@@ -820,6 +820,14 @@ func judgeCase(rec *caseRecord, sum *jSummary) {
 				add("C13", fmt.Sprintf("spec file of run %s (schedule %q) differs from the first run's", name, r.Order))
 			}
 		}
+		// the OpenAPI document does not depend on the routing engine
+		if e := rec.Runs["engine"]; e != nil {
+			if !accepted(e) {
+				add("C13", "generate spec was rejected under another routing engine while the first run was accepted", e.ErrLines...)
+			} else if e.SpecFile != nil && main.SpecFile != nil && e.SpecFile.Sha != main.SpecFile.Sha {
+				add("C13", "the spec file generated under another routing engine differs from the first run's")
+			}
+		}
 		if others > 0 {
 			eval("C13", multi)
 		}
